@@ -165,6 +165,18 @@ def exec_history(arg) -> dict:
     s1_0 = state.s1_digest()
     steps_total = 0
 
+    def comp_dumps(doc):
+        out = {}
+        for ctype, attr in (("body", "rtf_body"), ("header", "rtf_column_header"), ("page", "rtf_page"),
+                            ("title", "rtf_title"), ("subline", "rtf_subline"), ("page_header", "rtf_page_header"),
+                            ("page_footer", "rtf_page_footer"), ("footnote", "rtf_footnote"),
+                            ("source", "rtf_source")):
+            try:
+                out[ctype] = state.component_dump(getattr(doc, attr, None))
+            except Exception:  # noqa: BLE001 - targeting signal only
+                out[ctype] = "?"
+        return out
+
     def frames_ok():
         bad = []
         for df, spec in held_frames:
@@ -209,7 +221,10 @@ def exec_history(arg) -> dict:
             ev["comp"] = state.component_dump([doc.rtf_body, doc.rtf_column_header, doc.rtf_page,
                                                doc.rtf_footnote, doc.rtf_source, doc.rtf_title])
             if kind == "encode":
+                before = comp_dumps(doc)
                 o = R.outcome_of(doc.rtf_encode)
+                after = comp_dumps(doc)
+                ev["dirtied"] = sorted(k for k in before if before[k] != after[k])
                 text = o.pop("_text", None)
                 ev["outcome"] = R.strip(o)
                 ref = refs[str(ri)]["encode"]
@@ -562,6 +577,57 @@ def log_digest(res: dict) -> str:
 # one job (runs in a worker zygote)
 # --------------------------------------------------------------------------
 
+CONTEXT_EDITS = [
+    ("page", {"border_last": ""}), ("page", {"border_first": ""}), ("page", {"page_footnote": "first"}),
+    ("page", {"page_footnote": "all"}), ("page", {"page_source": "all"}), ("page", {"page_title": "all"}),
+    ("page", {"nrow": 4}), ("page", {"nrow": 30}), ("page", {"orientation": "landscape"}),
+    ("source", {"text": "Source: follow-up", "as_table": True}), ("source", None),
+    ("footnote", {"text": ["follow-up note"], "as_table": True}), ("footnote", None),
+    ("title", {"text": ["Follow-up title", "second line"]}), ("title", None),
+    ("body*", {"border_last": [[""]]}), ("body*", {"border_first": [[""]]}), ("body*", {"border_bottom": [["double"]]}),
+]
+
+
+def followup_plans(rng, plan: dict, res: dict, limit: int = 3) -> list:
+    """Greybox targeting: an encode that changed a component object the document
+    holds (a targeting signal, not a verdict - writing a memo is legal) is
+    followed up with histories that re-use exactly that object in a *different
+    context* and encode both documents in both orders."""
+    dirty = []
+    for ev in res["log"]:
+        if ev["op"] == "encode" and ev.get("dirtied"):
+            for ctype in ev["dirtied"]:
+                if (ev["recipe"], ctype) not in dirty:
+                    dirty.append((ev["recipe"], ctype))
+    out = []
+    rng.shuffle(dirty)
+    for ri, ctype in dirty[:limit]:
+        base = plan["recipes"][ri]
+        if base["kind"] == "figure" and ctype in ("body", "header"):
+            continue
+        var = json_copy(base)
+        edits = [e for e in CONTEXT_EDITS if e[0].rstrip("*") != ctype]
+        for tgt, val in rng.sample(edits, rng.choice([1, 2, 3])):
+            if tgt == "page":
+                var["page"] = dict(var.get("page") or {}, **val)
+            elif tgt == "body*":
+                var["bodies"] = [dict(b, **val) for b in var.get("bodies", [])]
+            else:
+                if var["kind"] == "figure" and tgt in ("footnote", "source") and val is not None:
+                    val = dict(val, as_table=False)
+                var[tgt] = val
+        if cjson(var) == cjson(base):
+            continue
+        share = {c: (c == ctype) for c in SHAREABLE}
+        a, b = (0, 1) if rng.random() < 0.5 else (1, 0)
+        ops = [{"op": "construct", "slot": 0, "recipe": a, "share": dict(share)}, {"op": "encode", "slot": 0},
+               {"op": "construct", "slot": 1, "recipe": b, "share": dict(share)}, {"op": "encode", "slot": 1},
+               {"op": "encode", "slot": 0}, {"op": "encode", "slot": 1}]
+        out.append({"recipes": [base, var], "ops": ops, "trace_mode": "call",
+                    "gen": {"share_p": 1.0, "fault_mode": "none", "followup": {"ctype": ctype}, "toggles": {}}})
+    return out
+
+
 _worker_state: dict = {}
 
 
@@ -571,6 +637,30 @@ def _ws():
         _worker_state.clear()
         _worker_state.update(pid=os.getpid(), figdir=figdir, refcache=RefCache(figdir), minimised=0)
     return _worker_state
+
+
+def _handle_violation(ws, plan, refs, res, vs, idx, out, max_minimise):
+    v = vs[0]
+    frozen = freeze_aborts(plan, res)
+    if ws["minimised"] < max_minimise:
+        ws["minimised"] += 1
+        try:
+            mplan, mrefs = minimise(frozen, refs, ws["figdir"], v, ws["refcache"])
+            mv, mres = _first_violation(mplan, mrefs, ws["figdir"], v["class"])
+            if mv is not None:
+                frozen, v = mplan, mv
+        except HarnessError as e:
+            out["minimise_error"] = str(e)[:300]
+    ref_text = None
+    if "_text" in v and v.get("recipe") is not None:
+        try:
+            ref_text = ws["refcache"].get(frozen["recipes"][v["recipe"]], want_text=True).get("text")
+        except HarnessError:
+            ref_text = None
+    if ref_text is not None and v["class"] == "output_differs":
+        v["class"] = diff_class(v["_text"], ref_text)
+    v.pop("_text", None)
+    out["violations"].append({"v": v, "sig": signature(v), "plan": frozen, "seed_idx": idx})
 
 
 def job(j: dict) -> dict:
@@ -583,30 +673,29 @@ def job(j: dict) -> dict:
     res = run_plan(plan, refs, ws["figdir"], sweep=(idx % 8 == 0))
     vs = judge(plan, res, refs)
     out = summarise(plan, res, refs, idx)
-    out["ms"] = int((time.monotonic() - t0) * 1000)
     out["violations"] = []
+    out["followups"] = 0
+    out["followup_checked_encodes"] = 0
     if vs:
-        v = vs[0]
-        frozen = freeze_aborts(plan, res)
-        if ws["minimised"] < j.get("max_minimise", 3):
-            ws["minimised"] += 1
-            try:
-                mplan, mrefs = minimise(frozen, refs, ws["figdir"], v, ws["refcache"])
-                mv, mres = _first_violation(mplan, mrefs, ws["figdir"], v["class"])
-                if mv is not None:
-                    frozen, v = mplan, mv
-            except HarnessError as e:
-                out["minimise_error"] = str(e)[:300]
-        ref_text = None
-        if "_text" in v and v.get("recipe") is not None:
-            try:
-                ref_text = ws["refcache"].get(frozen["recipes"][v["recipe"]], want_text=True).get("text")
-            except HarnessError:
-                ref_text = None
-        if ref_text is not None and v["class"] == "output_differs":
-            v["class"] = diff_class(v["_text"], ref_text)
-        v.pop("_text", None)
-        out["violations"].append({"v": v, "sig": signature(v), "plan": frozen, "seed_idx": idx})
+        _handle_violation(ws, plan, refs, res, vs, idx, out, j.get("max_minimise", 3))
+    else:
+        frng = core.rng_for(root, PROP, idx, "followup")
+        digests = [out["digest"]]
+        for fplan in followup_plans(frng, plan, res):
+            frefs = ws["refcache"].for_plan(fplan)
+            fres = run_plan(fplan, frefs, ws["figdir"])
+            out["followups"] += 1
+            out["followup_checked_encodes"] += sum(1 for e in fres["log"] if e["op"] == "encode" and not e.get("skipped"))
+            digests.append(log_digest(fres))
+            fsum = summarise(fplan, fres, frefs, idx)
+            for key in ("states", "trans", "nontrivial"):
+                out[key] = sorted(set(out[key]) | set(fsum[key]))
+            fvs = judge(fplan, fres, frefs)
+            if fvs:
+                _handle_violation(ws, fplan, frefs, fres, fvs, idx, out, j.get("max_minimise", 3))
+                break
+        out["digest"] = digest(digests)
+    out["ms"] = int((time.monotonic() - t0) * 1000)
     return out
 
 
@@ -817,6 +906,9 @@ def write_evidence(opts, good, nres, truncated, xres, n_new, n_known, wall_s, he
         },
         "histories_by_fault_mode": modes,
         "histories_fault_free": modes.get("none", 0),
+        "greybox_followups": {"histories": sum(r.get("followups", 0) for r in good),
+                              "checked_encodes": sum(r.get("followup_checked_encodes", 0) for r in good),
+                              "trigger": "an encode changed a component object held by the document"},
         "sharing": {"shared_object_reuses": sum(r["shared_hits"] for r in good), "by_component": hit_kinds},
         "encode_paths_checked": paths,
         "state_sweep": {"histories_swept": len(swept),
